@@ -927,15 +927,15 @@ var propMeta = map[string]meta{
 	"C09": mk("2..8 session scripts per connection on up to 4 connections, interleaving chosen by the seed, overlap by the tape (batch steps, handlers parked at logger/keychain/sink seams); every session is also run alone on a fresh server and the raw transcripts compared.", refParts),
 	"C10": mk("Generated users x groups x scopes x authenticators (inline hash, keychain, odd options) and every START variant, ASCII/PAP logins, aborts, stray CONTINUEs, mid-exchange STARTs; statuses compared with the reference model.", refParts),
 	"C11": mk("Generated permit/deny rules (alternations, partial anchors, escaped metacharacters, invalid syntax, whitespace), services with match conditions, arbitrary request argument lists; compared with the independent policy evaluator.", refParts, "input/configuration property: the evaluator decides, schedules do not"),
-	"C12": mk("Accounting requests with every flag octet and text over all 128 ASCII codes; simulated sink renders Printf exactly; record decoded independently.", refParts),
-	"C13": mk("Remote addresses (IPv4, IPv6, IPv4-mapped, prefix boundaries and neighbours, non-TCP) handed out by the simulated listener against overlapping prefixes and deny/allow lists; compared with the admission evaluator.", refParts, "input/configuration property: the evaluator decides"),
+	"C12": mk("Accounting requests with every flag octet and text over all 128 ASCII codes; simulated sink renders Printf exactly; record decoded independently. Family syslog-accounter: the real syslog-backed accounter with a real log/syslog.Writer against a scripted daemon on a unix datagram socket that goes away and comes back (sequential, outside the bubble).", append(append([]string{}, refParts...), "accounters/syslog (real log/syslog.Writer over a unix datagram socket; the daemon is the harness)")),
+	"C13": mk("Remote addresses (IPv4, IPv6, IPv4-mapped, prefix boundaries and neighbours, non-TCP) handed out by the simulated listener against overlapping prefixes and deny/allow lists; compared with the admission evaluator. Family concurrent-admission (yield build): several lookups in flight through freshly built filters and providers, checked with porcupine against the evaluator.", append(append([]string{}, refParts...), "loader.go, prefix_filter.go and secret/prefix/provider.go with a parking point before every statement (yield build)"), "input/configuration property: the evaluator decides; the concurrent family adds schedules"),
 	"C14": mk("Hostile clients (random bytes, mutated/truncated packets, oversize, every body kind in every handler state, odd authenticator options, key mismatches) next to control clients before and after.", refParts),
 	"C15": mk("race-batches (race-detector build, batch steps, Gosched yield seams), atomic-reload (yield-instrumented loader, porcupine), published-config-immutable (snapshots).", append(append([]string{}, refParts...), "Go race detector", "cmds/server/loader/loader.go with a parking point before every statement (yield build)")),
 	"C16": mk("config-history: one long-lived YAML/JSON loader vs a fresh one after every step of a document history with torn/short/stale-tail/empty/garbage file faults; reload-end-to-end: the reference server reloads while clients come and go.", refParts, "fsnotify's inotify loop is stubbed by calling Load/Unmarshal on the same loader object"),
 	"C17": mk("0..6 connections idle/mid-header/mid-body/handler parked/write blocked; cancellation, accept faults and listener close placed by the tape (also in the same step as an accept or delivery); clock advanced to just before/at/after each deadline.", libParts),
 	"C18": mk("All authentication histories of C10 with unique 20-character passwords and secrets; every logger call recorded; token scan in raw/hex/base64/byte-list form.", refParts),
 	"C19": mk("Clients holding another secret (and the converse: same secret, clear flag); bodies classified by the independent length-consistency classifier.", refParts, "input property: the classifier decides"),
-	"C20": mk("Histories mixing completed/abandoned sessions, refused admissions, even first sequence numbers, key mismatches, resets, shutdown with open connections; gauges read at every quiescent step.", libParts, "gauges are process-global: values are relative to the run's baseline"),
+	"C20": mk("Histories mixing completed/abandoned sessions, refused admissions, even first sequence numbers, key mismatches, resets, shutdown with open connections; gauges read at every quiescent step; in part of the runs a sibling Server value holds idle connections during the burst.", libParts, "gauges are process-global: values are relative to the run's baseline (with a sibling: to the value read once its connections are open)"),
 }
 
 // makeYieldCopy is defined in yield.go.
